@@ -1,8 +1,75 @@
-"""Regenerates lean/CM/Generated.lean from /repo's current working tree (DESIGN §2, Layer B)."""
+"""Regenerates lean/CM/Generated.lean from /repo's current working tree (DESIGN §2, Layer B).
+
+Instance data (live registry, default tables) and, where the source is a closed boolean /
+arithmetic expression, a Lean translation of the function body (py2lean). The file is only
+rewritten when its content changes, so an unchanged tree costs no rebuild.
+"""
+from __future__ import annotations
+
+import json
 from pathlib import Path
 
 import common
 
 
-def generate() -> str:
-    return "no generated instance data yet"
+def lstr(s: str) -> str:
+    return json.dumps(s, ensure_ascii=False)
+
+
+def llist(xs) -> str:
+    return "[" + ", ".join(xs) + "]"
+
+
+def registry_block() -> tuple[str, dict]:
+    from codemodder import registry as R
+
+    reg = R.load_registered_codemods()
+    cms = [(c.id, c.origin) for c in reg.codemods]
+    out = ["/-- the live registry: (id, origin) in registry order -/",
+           "def registry : List CM.Registry.Codemod := " + llist(f"⟨{lstr(i)}, {lstr(o)}⟩" for i, o in cms),
+           "",
+           "def defaultExcluded : List String := " + llist(lstr(x) for x in R.DEFAULT_EXCLUDED_CODEMODS), ""]
+    return "\n".join(out), {"codemods": len(cms), "default_excluded": len(R.DEFAULT_EXCLUDED_CODEMODS)}
+
+
+def paths_block() -> tuple[str, dict]:
+    from codemodder import code_directory as D
+
+    out = ["def defaultIncludedPaths : List String := " + llist(lstr(x) for x in D.DEFAULT_INCLUDED_PATHS),
+           "def defaultExcludedPaths : List String := " + llist(lstr(x) for x in D.DEFAULT_EXCLUDED_PATHS), ""]
+    return "\n".join(out), {"default_included_paths": len(D.DEFAULT_INCLUDED_PATHS), "default_excluded_paths": len(D.DEFAULT_EXCLUDED_PATHS)}
+
+
+def write_if_changed(name: str, imports: list[str], body: str) -> bool:
+    text = ("".join(f"import {m}\n" for m in imports)
+            + "/-! GENERATED from /repo by harness/gen.py on every run — do not edit. -/\n"
+            + "namespace CM.Generated\n\n" + body + "\nend CM.Generated\n")
+    p = common.LEAN_DIR / "CM" / "Generated" / f"{name}.lean"
+    p.parent.mkdir(exist_ok=True)
+    if not p.exists() or p.read_text() != text:
+        with common.BuildLock():
+            p.write_text(text)
+        return True
+    return False
+
+
+def generate() -> dict:
+    info = {"rewritten": []}
+    b, i = registry_block()
+    info.update(i)
+    if write_if_changed("Registry", ["CM.Model.Registry"], b):
+        info["rewritten"].append("Registry")
+    b, i = paths_block()
+    info.update(i)
+    if write_if_changed("Paths", [], b):
+        info["rewritten"].append("Paths")
+    try:
+        import py2lean
+    except ImportError:
+        py2lean = None
+    if py2lean is not None:
+        b, i = py2lean.block()
+        info.update(i)
+        if write_if_changed("Preds", ["CM.Model.Location"], b):
+            info["rewritten"].append("Preds")
+    return info
